@@ -9,7 +9,7 @@ for u, uc in cfg["units"].items():
     txt = open(os.path.join(ROOT, uc["unit"])).read()
     specs = []
     for l in txt.split("\n"):
-        if l.startswith("spec "): specs += l.split()[1:]
+        if l.startswith("spec ") or l.startswith("specref "): specs += l.split()[1:]
     types = [l[5:].strip() for l in txt.split("\n") if l.startswith("type ")]
     eager = set(); traced = set()
     for l in txt.split("\n"):
